@@ -54,6 +54,10 @@ struct Case {
     /// open with `Container::new_with_locator` and a locator the application provides (a search
     /// path over directories) instead of `Container::new`
     custom_locator: bool,
+    /// the entry file is reached through a symbolic link: the link sits in the directory the packs
+    /// are in, its target in another one (relative locations are relative to the directory of the
+    /// path that was opened)
+    via_symlink: bool,
 }
 
 /// An application-provided locator: looks the recorded location up in a list of directories.
@@ -79,7 +83,7 @@ impl Case {
         format!(
             "subset={:b} kind={:?} instant={:?} damaged={} order={}{}",
             self.subset, self.kind, self.instant, self.damaged, self.order_seed,
-            if self.custom_locator { " locator=application-provided" } else { "" }
+            if self.custom_locator { " locator=application-provided" } else if self.via_symlink { " entry=via-symlink" } else { "" }
         )
     }
 }
@@ -177,6 +181,29 @@ fn containers(seed: u64, tier: Tier) -> Vec<(String, Logical)> {
                     },
                 ));
             }
+            if p == 2 && k % 2 == 1 {
+                out.push((
+                    format!("c11-alternative-p{p}-{}{suffix}", comp.name()),
+                    Logical {
+                        comp,
+                        packaging: Packaging::Loose,
+                        n_packs: p,
+                        contents: contents_clone(&contents),
+                        schema: SchemaSpec {
+                            key_prefix: 2,
+                            store: StoreKind::Plain,
+                            variants: false,
+                            key_pad: 0,
+                        },
+                        dedup: false,
+                        aux_seed: rng.next_u64(),
+                        opts: gen::LogicalOpts {
+                            alternative_of_pack1: true,
+                            ..Default::default()
+                        },
+                    },
+                ));
+            }
             if p >= 2 && k % 3 == 0 {
                 // the last pack is recorded under a URL (loose), or left out of a one-file "light
                 // edition" whose packs are all recorded with an empty location (concat)
@@ -252,6 +279,7 @@ fn cases_for(model: &gen::Model, seed: u64) -> Vec<Case> {
         damaged: 0,
         order_seed: 1,
         custom_locator: false,
+        via_symlink: false,
     });
     out.push(Case {
         subset: 0,
@@ -260,6 +288,7 @@ fn cases_for(model: &gen::Model, seed: u64) -> Vec<Case> {
         damaged: 0,
         order_seed: 2,
         custom_locator: true,
+        via_symlink: false,
     });
     for subset in 1u32..(1 << n_packs) {
         if subset & absent_mask != 0 {
@@ -274,6 +303,7 @@ fn cases_for(model: &gen::Model, seed: u64) -> Vec<Case> {
                     damaged: 0,
                     order_seed: rng.next_u64(),
                     custom_locator: false,
+                    via_symlink: subset % 2 == 1,
                 });
                 // a second access order, through an application-provided locator
                 out.push(Case {
@@ -283,6 +313,7 @@ fn cases_for(model: &gen::Model, seed: u64) -> Vec<Case> {
                     damaged: 0,
                     order_seed: rng.next_u64(),
                     custom_locator: true,
+                    via_symlink: false,
                 });
             }
             // "the container check covers the packs that are present": damage each present pack
@@ -295,6 +326,7 @@ fn cases_for(model: &gen::Model, seed: u64) -> Vec<Case> {
                         damaged: d,
                         order_seed: rng.next_u64(),
                         custom_locator: d % 2 == 0,
+                        via_symlink: d % 2 == 1,
                     });
                 }
             }
@@ -312,6 +344,7 @@ fn cases_for(model: &gen::Model, seed: u64) -> Vec<Case> {
             damaged: d,
             order_seed: rng.next_u64(),
             custom_locator: d % 2 == 1,
+            via_symlink: d % 2 == 0,
         });
     }
     out
@@ -385,7 +418,12 @@ fn apply_fault(dir: &Path, img: &Image, case: &Case) {
             Kind::OtherPack | Kind::SymlinkToOtherPack => {
                 // another pack of this container when there is one that stays available, else a foreign one
                 let other = img.model.pack_ids().into_iter().find(|q| *q != p && case.subset & (1 << (q - 1)) == 0);
-                let bytes = match other {
+                // (a pack that has an alternative - a second pack listed under its id - is replaced
+                // by exactly that sibling: same id, another uuid)
+                let alt = img.files.iter().find(|(n, _)| n.ends_with(".c1alt.jbkc"));
+                let bytes = if let (1, Some((_, b))) = (p, alt) {
+                    b.clone()
+                } else { match other {
                     Some(q) => img
                         .files
                         .iter()
@@ -394,7 +432,7 @@ fn apply_fault(dir: &Path, img: &Image, case: &Case) {
                         .1
                         .clone(),
                     None => img.foreign.clone(),
-                };
+                } };
                 // replace atomically (new inode) so that an already opened handle keeps the old file
                 let tmp = dir.join(format!("{name}.new"));
                 std::fs::write(&tmp, bytes).unwrap();
@@ -584,6 +622,13 @@ fn run_case(dir: &Path, img: &Image, case: &Case) -> Vec<String> {
         apply_fault(dir, img, case);
     }
     let entry = dir.join(&img.files[0].0);
+    if case.via_symlink {
+        let real = dir.join("elsewhere");
+        std::fs::create_dir_all(&real).unwrap();
+        let target = real.join(&img.files[0].0);
+        std::fs::rename(&entry, &target).unwrap();
+        std::os::unix::fs::symlink(std::path::Path::new("elsewhere").join(&img.files[0].0), &entry).unwrap();
+    }
     let opened = if case.custom_locator {
         jubako::reader::Container::new_with_locator(
             &entry,
@@ -755,7 +800,16 @@ pub fn worker_main(args: &Args, w: usize, n: usize) -> ! {
         );
         let lo = total * w as u64 / n as u64;
         let hi = total * (w as u64 + 1) / n as u64;
-        let case_dir = scratch.path.join(format!("case-{ii}"));
+        // every other image is read from a directory whose name is not valid UTF-8 (the creator
+        // API only takes UTF-8 paths, the reader takes any path)
+        let case_dir = if ii % 2 == 1 {
+            use std::os::unix::ffi::OsStrExt;
+            let mut name = b"case-archiv\xE9s-".to_vec();
+            name.extend_from_slice(ii.to_string().as_bytes());
+            scratch.path.join(std::ffi::OsStr::from_bytes(&name))
+        } else {
+            scratch.path.join(format!("case-{ii}"))
+        };
         let mut fifo_blocked = false;
         for i in lo..hi {
             let case = &cases[i as usize];
